@@ -124,6 +124,10 @@ package jsonpath
 //@ smt (declare-fun height (Val) Int)
 //@ smt (declare-fun hgt (Int) Int)
 //@ smt (declare-fun qheight (Val) Int)
+//@ smt (declare-fun WFcmp (Val) Bool)
+//@ smt (declare-fun WFval (Val) Bool)
+//@ smt (declare-fun vkind (Val) Int)
+//@ smt (declare-fun paramSingleQ (Val) Bool)
 
 //@ spec rtOK(r *errorBasicRuntime) bool = r != nil && r.node != nil
 //@ spec errRT(b *syntaxBasicNode) bool = rtOK(b.errorRuntime)
@@ -362,3 +366,251 @@ package jsonpath
 //@   loop 3 invariant stack: wf(targetNodes) && mine(targetNodes) && arr(targetNodes) != arr(container.result)
 //@   loop 3 invariant stackext: extStack(targetNodes)
 //@   loop 3 decreases index + 1
+
+// ---------------------------------------------------------------------------------------
+// Filters: query evaluation (thin: safety, list shapes, ownership)
+// ---------------------------------------------------------------------------------------
+
+// validator kinds: 0 any value, 1 number, 2 bool, 3 string, 4 null
+//@ spec okSlot(k int, v any) bool = v == emptyEntity || k == 0 || (k == 1 && isType(v, float64)) || (k == 2 && isType(v, bool)) || (k == 3 && isType(v, string)) || (k == 4 && v == nil)
+//@ spec typedList(k int, s []interface{}) bool = forall i {elemAt(s, i)} :: off(s) <= i && i < off(s) + len(s) ==> okSlot(k, elemAt(s, i))
+//@ spec allEmpty(s []interface{}) bool = forall i {elemAt(s, i)} :: off(s) <= i && i < off(s) + len(s) ==> elemAt(s, i) == emptyEntity
+
+//@ spec WFandDef(n *syntaxLogicalAnd) bool = n != nil && !paramSingleQ(n) && n.leftQuery != nil && n.rightQuery != nil && WFquery(n.leftQuery) && WFquery(n.rightQuery) && 0 <= qheight(n.leftQuery) && qheight(n.leftQuery) < qheight(n) && 0 <= qheight(n.rightQuery) && qheight(n.rightQuery) < qheight(n)
+//@ spec WForDef(n *syntaxLogicalOr) bool = n != nil && !paramSingleQ(n) && n.leftQuery != nil && n.rightQuery != nil && WFquery(n.leftQuery) && WFquery(n.rightQuery) && 0 <= qheight(n.leftQuery) && qheight(n.leftQuery) < qheight(n) && 0 <= qheight(n.rightQuery) && qheight(n.rightQuery) < qheight(n)
+//@ spec WFnotDef(n *syntaxLogicalNot) bool = n != nil && !paramSingleQ(n) && n.query != nil && WFquery(n.query) && 0 <= qheight(n.query) && qheight(n.query) < qheight(n)
+//@ spec WFcparam(p *syntaxBasicCompareParameter, q any) bool = p != nil && p.param != nil && WFquery(p.param) && 0 <= qheight(p.param) && qheight(p.param) < qheight(q) && paramSingleQ(p.param) && (p.isLiteral ==> isType(p.param, *syntaxQueryParamLiteral) || isType(p.param, *syntaxQueryParamRoot))
+//@ spec WFcmpqDef(n *syntaxBasicCompareQuery) bool = n != nil && !paramSingleQ(n) && n.comparator != nil && WFcmp(n.comparator) && WFcparam(n.leftParam, n) && WFcparam(n.rightParam, n) && n.rightParam.isLiteral
+//@ spec WFlitDef(n *syntaxQueryParamLiteral) bool = n != nil && len(n.literal) == 1 && wf(n.literal) && RO(n.literal)
+//@ spec WFprootDef(n *syntaxQueryParamRoot) bool = n != nil && n.param != nil && WFnode(n.param) && 0 <= height(n.param) && height(n.param) < qheight(n) && (paramSingleQ(n) ==> chainSingle(n.param))
+//@ spec WFpcurDef(n *syntaxQueryParamCurrentRoot) bool = n != nil && n.param != nil && WFnode(n.param) && 0 <= height(n.param) && height(n.param) < qheight(n)
+
+//@ spec WFdirectDef(c *syntaxCompareDirectEQ) bool = c != nil && c.syntaxTypeValidator != nil && WFval(c.syntaxTypeValidator) && vkind(c) == vkind(c.syntaxTypeValidator) && 1 <= vkind(c) && vkind(c) <= 4
+//@ spec WFdeepDef(c *syntaxCompareDeepEQ) bool = c != nil && vkind(c) == 0 && WFval(c.syntaxBasicAnyValueTypeValidator)
+//@ spec WFgeDef(c *syntaxCompareGE) bool = c != nil && vkind(c) == 1 && WFval(c.syntaxBasicNumericTypeValidator)
+//@ spec WFgtDef(c *syntaxCompareGT) bool = c != nil && vkind(c) == 1 && WFval(c.syntaxBasicNumericTypeValidator)
+//@ spec WFleDef(c *syntaxCompareLE) bool = c != nil && vkind(c) == 1 && WFval(c.syntaxBasicNumericTypeValidator)
+//@ spec WFltDef(c *syntaxCompareLT) bool = c != nil && vkind(c) == 1 && WFval(c.syntaxBasicNumericTypeValidator)
+//@ spec WFregexDef(c *syntaxCompareRegex) bool = c != nil && vkind(c) == 3 && c.regex != nil && WFval(c.syntaxBasicStringTypeValidator)
+
+//@ extern (json.Number).Float64
+//@   pure
+//@ extern reflect.DeepEqual
+//@   pure
+//@ extern (*regexp.Regexp).MatchString
+//@   pure
+
+//@ template computeFrame
+//@   requires extVal(root) && wf(currentList) && extStack(currentList)
+//@   ensures shape: (len(ret) == 1 || len(ret) == len(currentList)) && wf(ret)
+//@   ensures owner: fresh(ret) || ret == emptyList || ret == fullList
+
+//@ interface syntaxQuery.compute
+//@   requires WFquery(this)
+//@   include computeFrame
+//@   ensures single: paramSingleQ(this) ==> ret != fullList
+//@   ensures one: (isType(this, *syntaxQueryParamLiteral) || isType(this, *syntaxQueryParamRoot)) ==> len(ret) == 1
+//@   decreases 3*qheight(this) + 2
+
+//@ template validateFrame
+//@   requires wf(values)
+//@   modifies elems(values)
+//@   ensures none: !ret ==> allEmpty(values)
+//@   ensures some: ret ==> !allEmpty(values)
+
+//@ interface syntaxComparator.validate
+//@   requires WFcmp(this) && (mine(values) || typedList(vkind(this), values))
+//@   include validateFrame
+//@   ensures typed: typedList(vkind(this), values)
+
+//@ interface syntaxTypeValidator.validate
+//@   requires WFval(this) && (mine(values) || typedList(vkind(this), values))
+//@   include validateFrame
+//@   ensures typed: typedList(vkind(this), values)
+
+//@ interface syntaxComparator.comparator
+//@   requires WFcmp(this) && wf(left) && mine(left) && typedList(vkind(this), left) && okSlot(vkind(this), right) && right != emptyEntity
+//@   modifies elems(left)
+
+//@ func (*syntaxBasicAnyValueTypeValidator).validate
+//@   props C03 C04 C05 C06 C10 C20
+//@   implements syntaxTypeValidator.validate
+//@   unfold WFval(this) ==> vkind(this) == 0
+//@   loop 1 invariant forall i {elemAt(values, i)} :: off(values) <= i && i <= off(values) + rangeindex ==> elemAt(values, i) == emptyEntity
+
+//@ func (*syntaxBasicNumericTypeValidator).validate
+//@   props C03 C04 C05 C06 C10 C20
+//@   implements syntaxTypeValidator.validate
+//@   unfold WFval(this) ==> vkind(this) == 1
+//@   loop 1 invariant mine(values) || typedList(1, values)
+//@   loop 1 invariant forall i {elemAt(values, i)} :: off(values) <= i && i <= off(values) + rangeindex ==> okSlot(1, elemAt(values, i))
+//@   loop 1 invariant !foundValue ==> (forall i {elemAt(values, i)} :: off(values) <= i && i <= off(values) + rangeindex ==> elemAt(values, i) == emptyEntity)
+//@   loop 1 invariant foundValue ==> (exists i :: off(values) <= i && i <= off(values) + rangeindex && elemAt(values, i) != emptyEntity)
+
+//@ func (*syntaxBasicBoolTypeValidator).validate
+//@   props C03 C04 C05 C06 C10 C20
+//@   implements syntaxTypeValidator.validate
+//@   unfold WFval(this) ==> vkind(this) == 2
+//@   loop 1 invariant mine(values) || typedList(2, values)
+//@   loop 1 invariant forall i {elemAt(values, i)} :: off(values) <= i && i <= off(values) + rangeindex ==> okSlot(2, elemAt(values, i))
+//@   loop 1 invariant !foundValue ==> (forall i {elemAt(values, i)} :: off(values) <= i && i <= off(values) + rangeindex ==> elemAt(values, i) == emptyEntity)
+//@   loop 1 invariant foundValue ==> (exists i :: off(values) <= i && i <= off(values) + rangeindex && elemAt(values, i) != emptyEntity)
+
+//@ func (*syntaxBasicStringTypeValidator).validate
+//@   props C03 C04 C05 C06 C10 C20
+//@   implements syntaxTypeValidator.validate
+//@   unfold WFval(this) ==> vkind(this) == 3
+//@   loop 1 invariant mine(values) || typedList(3, values)
+//@   loop 1 invariant forall i {elemAt(values, i)} :: off(values) <= i && i <= off(values) + rangeindex ==> okSlot(3, elemAt(values, i))
+//@   loop 1 invariant !foundValue ==> (forall i {elemAt(values, i)} :: off(values) <= i && i <= off(values) + rangeindex ==> elemAt(values, i) == emptyEntity)
+//@   loop 1 invariant foundValue ==> (exists i :: off(values) <= i && i <= off(values) + rangeindex && elemAt(values, i) != emptyEntity)
+
+//@ func (*syntaxBasicNilTypeValidator).validate
+//@   props C03 C04 C05 C06 C10 C20
+//@   implements syntaxTypeValidator.validate
+//@   unfold WFval(this) ==> vkind(this) == 4
+//@   loop 1 invariant mine(values) || typedList(4, values)
+//@   loop 1 invariant forall i {elemAt(values, i)} :: off(values) <= i && i <= off(values) + rangeindex ==> okSlot(4, elemAt(values, i))
+//@   loop 1 invariant !foundValue ==> (forall i {elemAt(values, i)} :: off(values) <= i && i <= off(values) + rangeindex ==> elemAt(values, i) == emptyEntity)
+//@   loop 1 invariant foundValue ==> (exists i :: off(values) <= i && i <= off(values) + rangeindex && elemAt(values, i) != emptyEntity)
+
+// promoted validate methods of the comparators (synthesised wrappers, verified like any function)
+//@ func (*syntaxCompareDirectEQ).validate
+//@   props C03 C04 C05 C06 C10 C20
+//@   implements syntaxComparator.validate
+//@   unfold WFcmp(this) ==> WFdirectDef(self)
+//@ func (*syntaxCompareDeepEQ).validate
+//@   props C03 C04 C05 C06 C10 C20
+//@   implements syntaxComparator.validate
+//@   unfold WFcmp(this) ==> WFdeepDef(self)
+//@ func (*syntaxCompareGE).validate
+//@   props C03 C04 C05 C06 C10 C20
+//@   implements syntaxComparator.validate
+//@   unfold WFcmp(this) ==> WFgeDef(self)
+//@ func (*syntaxCompareGT).validate
+//@   props C03 C04 C05 C06 C10 C20
+//@   implements syntaxComparator.validate
+//@   unfold WFcmp(this) ==> WFgtDef(self)
+//@ func (*syntaxCompareLE).validate
+//@   props C03 C04 C05 C06 C10 C20
+//@   implements syntaxComparator.validate
+//@   unfold WFcmp(this) ==> WFleDef(self)
+//@ func (*syntaxCompareLT).validate
+//@   props C03 C04 C05 C06 C10 C20
+//@   implements syntaxComparator.validate
+//@   unfold WFcmp(this) ==> WFltDef(self)
+//@ func (*syntaxCompareRegex).validate
+//@   props C03 C04 C05 C06 C10 C20
+//@   implements syntaxComparator.validate
+//@   unfold WFcmp(this) ==> WFregexDef(self)
+
+//@ func (*syntaxCompareDirectEQ).comparator
+//@   props C03 C04 C05 C06 C10 C20
+//@   implements syntaxComparator.comparator
+//@   unfold WFcmp(this) ==> WFdirectDef(c)
+//@   loop 1 invariant mine(left) && typedList(vkind(this), left)
+//@ func (*syntaxCompareDeepEQ).comparator
+//@   props C03 C04 C05 C06 C10 C20
+//@   implements syntaxComparator.comparator
+//@   unfold WFcmp(this) ==> WFdeepDef(c)
+//@   loop 1 invariant mine(left)
+//@ func (*syntaxCompareGE).comparator
+//@   props C03 C04 C05 C06 C10 C20
+//@   implements syntaxComparator.comparator
+//@   unfold WFcmp(this) ==> WFgeDef(c)
+//@   loop 1 invariant mine(left) && typedList(1, left)
+//@ func (*syntaxCompareGT).comparator
+//@   props C03 C04 C05 C06 C10 C20
+//@   implements syntaxComparator.comparator
+//@   unfold WFcmp(this) ==> WFgtDef(c)
+//@   loop 1 invariant mine(left) && typedList(1, left)
+//@ func (*syntaxCompareLE).comparator
+//@   props C03 C04 C05 C06 C10 C20
+//@   implements syntaxComparator.comparator
+//@   unfold WFcmp(this) ==> WFleDef(c)
+//@   loop 1 invariant mine(left) && typedList(1, left)
+//@ func (*syntaxCompareLT).comparator
+//@   props C03 C04 C05 C06 C10 C20
+//@   implements syntaxComparator.comparator
+//@   unfold WFcmp(this) ==> WFltDef(c)
+//@   loop 1 invariant mine(left) && typedList(1, left)
+//@ func (*syntaxCompareRegex).comparator
+//@   props C03 C04 C05 C06 C10 C20
+//@   implements syntaxComparator.comparator
+//@   unfold WFcmp(this) ==> WFregexDef(r)
+//@   loop 1 invariant mine(left) && typedList(3, left)
+
+//@ func (*syntaxQueryParamLiteral).compute
+//@   props C03 C04 C05 C06 C20
+//@   implements syntaxQuery.compute
+//@   unfold WFquery(this) ==> WFlitDef(l)
+
+//@ func (*syntaxQueryParamRoot).compute
+//@   props C03 C04 C05 C06 C20
+//@   implements syntaxQuery.compute
+//@   unfold WFquery(this) ==> WFprootDef(e)
+
+//@ func (*syntaxQueryParamCurrentRoot).compute
+//@   props C03 C04 C05 C06 C20
+//@   implements syntaxQuery.compute
+//@   unfold WFquery(this) ==> WFpcurDef(e)
+//@   loop 1 invariant ownsBuf(container) && wf(result) && mine(result) && len(result) == len(currentList) && arr(result) != arr(container.result)
+
+//@ func (*syntaxBasicCompareParameter).compute
+//@   props C03 C04 C05 C06 C20
+//@   requires p != nil && p.param != nil && WFquery(p.param) && 0 <= qheight(p.param)
+//@   include computeFrame
+//@   ensures single: paramSingleQ(p.param) ==> ret != fullList
+//@   ensures one: (isType(p.param, *syntaxQueryParamLiteral) || isType(p.param, *syntaxQueryParamRoot)) ==> len(ret) == 1
+//@   decreases 3*qheight(p.param) + 3
+
+//@ func (*syntaxBasicCompareQuery).compute
+//@   props C03 C04 C05 C06 C09 C10 C20
+//@   implements syntaxQuery.compute
+//@   unfold WFquery(this) ==> WFcmpqDef(q)
+
+//@ func (*syntaxLogicalAnd).compute
+//@   props C03 C04 C05 C06 C09 C20
+//@   implements syntaxQuery.compute
+//@   unfold WFquery(this) ==> WFandDef(l)
+//@   loop 1 invariant wf(leftComputedList) && mine(leftComputedList)
+
+//@ func (*syntaxLogicalOr).compute
+//@   props C03 C04 C05 C06 C09 C20
+//@   implements syntaxQuery.compute
+//@   unfold WFquery(this) ==> WForDef(l)
+//@   loop 1 invariant wf(leftComputedList) && mine(leftComputedList)
+
+//@ func (*syntaxLogicalNot).compute
+//@   props C03 C04 C05 C06 C09 C20
+//@   implements syntaxQuery.compute
+//@   unfold WFquery(this) ==> WFnotDef(l)
+//@   loop 1 invariant wf(computedList) && mine(computedList)
+
+//@ func (*syntaxFilterQualifier).retrieve
+//@   props C03 C04 C05 C06 C20
+//@   implements syntaxNode.retrieve
+//@   unfold WFnode(this) ==> WFfilterDef(f)
+
+//@ func (*syntaxFilterQualifier).retrieveMap
+//@   props C03 C04 C05 C06 C07 C20
+//@   requires WFfilterDef(f)
+//@   include retrieveFrame
+//@   decreases 3*height(f) + 1
+//@   loop 1 invariant ownsKeys(sortKeys) && wf(valueList) && mine(valueList) && len(valueList) == len(srcMap) && len(poolSlice(sortKeys)) == len(srcMap) && off(valueList) == 0
+//@   loop 1 invariant forall k {elemAt(valueList, k)} :: 0 <= k && k <= rangeindex ==> extVal(elemAt(valueList, k))
+//@   loop 2 invariant bufInv(container) && errInv(deepestTextLen, deepestError) && ownsKeys(sortKeys) && len(poolSlice(sortKeys)) == len(srcMap)
+
+//@ func (*syntaxFilterQualifier).retrieveList
+//@   props C03 C04 C05 C06 C07 C20
+//@   requires WFfilterDef(f) && RO(srcList) && wf(srcList)
+//@   include retrieveFrame
+//@   decreases 3*height(f) + 1
+//@   loop 1 invariant bufInv(container) && errInv(deepestTextLen, deepestError)
+
+//@ func Parse$2
+//@   props C03 C04 C05 C06 C20
+//@   requires root != nil && WFnode(root) && extVal(src)
+//@   ensures ok: ret1 == nil ==> len(ret0) >= 1 && fresh(ret0)
+//@   ensures err: ret1 != nil ==> ret0 == nil && (isType(ret1, ErrorMemberNotExist) || isType(ret1, ErrorTypeUnmatched) || isType(ret1, ErrorFunctionFailed))
+//@   loop 1 invariant ownsBuf(container) && wf(result) && mine(result) && len(result) == len(container.result) && arr(result) != arr(container.result) && fresh(result)
